@@ -585,16 +585,23 @@ def case_diffb_sites(db, rep, prog):
     fn = db.fn('case_diffb.c', 'case_diffb')
     bad = None
     n = 0
-    pairs = [(b'', b'', 0), (b'a', b'A', 1), (b'a', b'b', 1), (b'Z', b'z', 1), (b'@', b'`', 1), (b'[', b'{', 1), (b'ab', b'aB', 2), (b'ab', b'ac', 2), (b'ab', b'ac', 1), (b'x', b'y', 0),
+    pairs = [(b'x', b'y', 0), (b':tag', b'Qtag', 0), (b'', b'', 0), (b'a', b'A', 1), (b'a', b'b', 1), (b'Z', b'z', 1), (b'@', b'`', 1), (b'[', b'{', 1), (b'ab', b'aB', 2), (b'ab', b'ac', 2), (b'ab', b'ac', 1), (b'x', b'y', 0),
              (b':tag', b'Qtag', 0), (b'AZaz', b'azAZ', 4), (b'\xc1', b'\xe1', 1)]
     for s_, t_, ln in pairs:
         st = {0: fs(('&', 'S[0]')), 1: fs(ln), 2: fs(('&', 'T[0]'))}
         st.update(conc_string_cells('S', s_))
         st.update(conc_string_cells('T', t_))
-        H = _run_conc(db, rep, prog, fn, st, 'case_diffb')
+        if bad is not None:
+            break
+        try:
+            H = _run_conc(db, rep, prog, fn, st, 'case_diffb')
+        except AnalysisBroken:
+            bad = 'case_diffb(%r, %d, %r) does not stop at its length: it goes on comparing behind the %d byte(s) it was given' % (s_, ln, t_, ln)
+            break
         n += 1
         if len(H.ends) != 1:
-            raise AnalysisBroken('case_diffb: %d ends' % len(H.ends))
+            bad = 'case_diffb(%r, %d, %r) reads bytes behind its length (%d different results depending on them)' % (s_, ln, t_, len(H.ends))
+            break
         got = one(H.ends[0][1])
         fold = lambda b_: bytes((c + 32 if 65 <= c <= 90 else c) for c in b_[:ln])
         want_equal = fold(s_) == fold(t_)
